@@ -237,8 +237,24 @@ def run_case(case):
             vals = {'a': 0, 'b': b'', 'c': False} if case.get('payload') == 'falsy' else {'a': 1, 'b': b'x', 'c': True}
             for nm in present:
                 o[nm] = vals[nm]
-            want = cons.admits(c, kind, {nm: vals[nm] for nm in present})
+            try:
+                want = cons.admits(c, kind, {nm: vals[nm] for nm in present})
+            except ValueError:
+                continue            # a value rule on a field this record does not hold: no denotation to compare with
             _encoders(F, o, want, '%s with components %s under %s' % (kind, present, ir.jdump(c)[:160]))
+            # the same object is judged again after its fields were given other values in place (same presence pattern):
+            # a verdict must not outlive the values it was reached for
+            for vals2 in case.get('revisit', []):
+                if not all(nm in vals2 for nm in present):
+                    continue
+                for nm in present:
+                    o[nm] = vals2[nm]
+                try:
+                    want = cons.admits(c, kind, {nm: vals2[nm] for nm in present})
+                except ValueError:
+                    continue
+                _encoders(F, o, want, '%s with components %s = %s (changed in place) under %s' % (
+                    kind, present, [vals2[nm] for nm in present], ir.jdump(c)[:160]))
         return fails
     raise ValueError(case['what'])
 
@@ -363,14 +379,23 @@ def run_shard(desc, seed, tier, col):
         kind = d.pick(['SEQUENCE', 'SET'])
 
         def leaf():
-            return {'c': 'withcomp', 'rules': [[nm, d.pick(['present', 'absent'])] for nm in 'abc' if d.pct(50)] or [['a', 'present']]}
+            rules = [[nm, d.pick(['present', 'absent'])] for nm in 'abc' if d.pct(50)] or [['a', 'present']]
+            if d.pct(35):
+                # "any other constraint object": a value constraint on field a, or a size constraint on field b
+                if d.pct(60):
+                    rules = [r for r in rules if r[0] != 'a'] + [['a', d.pick([{'c': 'range', 'lo': 0, 'hi': 5}, {'c': 'single', 'vals': [1, 7]},
+                                                                               {'c': 'range', 'lo': 1, 'hi': 1}])]]
+                else:
+                    rules = [r for r in rules if r[0] != 'b'] + [['b', {'c': 'size', 'lo': d.pick([0, 1]), 'hi': d.pick([1, 2])}]]
+            return {'c': 'withcomp', 'rules': rules}
 
         def expr(depth):
             if depth <= 1 or d.pct(50):
                 return leaf()
             return {'c': d.pick(['and', 'or', 'except']), 'ops': [expr(depth - 1) for _ in range(d.int(1, 2))]}
         subsets = [[], ['a'], ['b'], ['c'], ['a', 'b'], ['a', 'c'], ['b', 'c'], ['a', 'b', 'c']]
-        return {'what': 'record', 'kind': kind, 'expr': expr(3), 'subsets': subsets, 'payload': d.pick(['truthy', 'falsy'])}
+        revisit = [{'a': d.pick([0, 1, 5, 6, 7, -1]), 'b': d.pick([b'', b'x', b'xy', b'xyz']), 'c': d.pct(50)} for _ in range(3)]
+        return {'what': 'record', 'kind': kind, 'expr': expr(3), 'subsets': subsets, 'payload': d.pick(['truthy', 'falsy']), 'revisit': revisit}
 
     def body(case):
         if case['what'] == 'scalar':
